@@ -58,12 +58,23 @@ def process_failures(pid, tier, seed, spaces, aggs):
     violations = {}     # sig -> (replay path, text)
     known_hits = {}
     bulk_seen = {}
+    t_min = time.time()
+    nmin = 0
+    pre_seen = set()
     for sp, a in zip(spaces, aggs):
         for f in a['fails']:
             if len(violations) >= core.MAX_SIGNATURES:
                 break
             if sp.kind == 'choice':
                 choices, labels, path, exp, obs = f
+                pre = (sp.name, tuple(sorted(labels)), path)
+                if pre in pre_seen:
+                    continue
+                pre_seen.add(pre)
+                # minimisation is bounded: at most 60 failures / 60 s per run (simplest first)
+                if nmin >= 60 or time.time() - t_min > 60:
+                    continue
+                nmin += 1
                 m = core.minimise(sp, choices)
                 if m is None:
                     # does not reproduce alone: order-dependent (library state outside the object)
